@@ -547,3 +547,35 @@ pub const ALL_PROPS: [&str; 3] = ["C01", "C02", "C03"];
 fn _unused() {
     let _ = no_cross;
 }
+
+/// a mixed bag of scenarios from every generator family, for the determinism self-test
+pub fn selftest_scenario(seed: u64, i: usize) -> Scenario {
+    let mut rng = Rng::new(mix(seed ^ 0x5E1F, i as u64));
+    let k = Knobs { envelope: rng.chance(1, 2), handlers: true, ..Knobs::default() };
+    let mut sc = gen::pair_cfg(&mut rng, &k);
+    gen::add_file_put(&mut sc, &mut rng, &k, 0, 1, 0);
+    if rng.chance(1, 3) {
+        gen::add_file_put(&mut sc, &mut rng, &k, 1, 0, 1);
+    }
+    let prof = estimate_profile(&sc);
+    sc.script = gen::wild_script(&mut rng, &sc, &prof, 0, 1);
+    if rng.chance(1, 2) {
+        let op = *rng.pick(&[UserOp::Cancel, UserOp::Suspend, UserOp::PromptNak, UserOp::PromptKa, UserOp::Report]);
+        let ent = rng.usize_below(2);
+        let n = rng.below(prof.fwd.len() as u64 + 1) as u32;
+        sc.script.push(Entry::User { ent, op, put: 0, at: Trigger::AfterPdu { src: 0, dst: 1, n } });
+        if op == UserOp::Suspend {
+            sc.script.push(Entry::User { ent, op: UserOp::Resume, put: 0, at: Trigger::Plus(Box::new(Trigger::AfterPdu { src: 0, dst: 1, n }), rng.range(0, 9_000_000)) });
+        }
+    }
+    if rng.chance(1, 5) {
+        sc.script.push(Entry::ClockJump { at: Trigger::At(rng.range(1, 3_000_000)), us: rng.range(1, 9_000_000) });
+    }
+    if rng.chance(1, 5) {
+        sc.script.push(Entry::Stall { ent: rng.usize_below(2), at: Trigger::At(rng.range(0, 2_000_000)), us: rng.range(1000, 5_000_000) });
+    }
+    if rng.chance(1, 5) {
+        sc.script.push(Entry::Inject { src: 0, dst: 1, what: What::Copy { src: 0, dst: 1, n: rng.below(4) as u32 }, at: Trigger::AfterKind { src: 1, dst: 0, kind: Kind::Fin, k: 0 }, delay_us: rng.range(0, 3_000_000) });
+    }
+    sc
+}
